@@ -3,7 +3,7 @@ _GATHER_NOTE = (
     "inside testing/synctest (go1.26.8): fake transport.Net (scripted interface table, ListenUDP/ListenPacket with a "
     "port-availability map, every open/close counted), fake UDP/TCP/srflx muxes counting GetConn handles per ufrag, "
     "scripted STUN responder (reply before / after cancel / never), injected turnClientFactory (allocate ok / fail / "
-    "timeout, factory and Listen failures), address-rewrite rules for srflx and relay. Kernel sockets are therefore "
+    "timeout, factory and Listen failures), address-rewrite rules for host, srflx and relay. Kernel sockets are therefore "
     "OBSERVED THROUGH THE COUNTING FAKE NET, not the OS. Trusted / modelled, not verified: pion/turn, pion/mdns "
     "(the mDNS server is not started: the mode is set on the agent), pion/stun message coding, pion/transport; "
     "net/netip address classification (loopback, link-local, site-local fec0::/10, ::/96) is mirrored by a small "
@@ -11,7 +11,10 @@ _GATHER_NOTE = (
     "replaced by counting fakes (their own behaviour is C12/C13/C15). No translation (T) or skeleton (S) tie for "
     "gather.go: a change of the code is noticed through the correspondence only, i.e. as far as the generators reach "
     "(generator restrictions: several gatherers never race for the last free port; the srflx mux has one listen "
-    "address; host rewrite rules are not generated - they are C19's)."
+    "address; ONE host rewrite rule per agent - replace/append, catch-all or pinned to a local address, optionally "
+    "interface-scoped - its lookup is restated for that shape, precedence among several rules is C19's; a host rule that "
+    "can publish one address from sockets on two local addresses is only combined with no port range or a single-port "
+    "range, because listenUDPInPortRange starts its scan at a random port)."
 )
 
 CFG = {
@@ -31,7 +34,8 @@ CFG = {
     "components": [{"component": "gather", "session_start": "new", "trivial_regex": r"^(bad-op.*|r=err:.*)$",
                     "timeout_quick": 300, "timeout_thorough": 1500, "shrink_s": 40}],
     "rule": "quick: all 16 network-type subsets x {no TCP mux, TCP mux} x 2 interface tables with double gather and restart; "
-            "8 port-range/busy-port cases x 3 tables; Restart/Close/Failed inserted at every position of a reply script for 5 "
+            "24 external-address lists x 9 host-rewrite rule shapes x 5 (network types, mux) settings with restart / double gather / "
+            "close; 8 port-range/busy-port cases x 3 tables; Restart/Close/Failed inserted at every position of a reply script for 5 "
             "(thorough: 8) configurations; the stale-mux window (F12); 700 (thorough: 120000) random sessions = random "
             "configuration (candidate types, network types, port range, filters, loopback, mDNS, muxes, STUN/TURN URLs, TURN "
             "failures, rewrite rules) x random interface table x random script of gather/restart/close/fail/release/adv/"
